@@ -2,7 +2,7 @@
    and carries the events out in the day loop (property C10).  No proofs in this file.
 
    Go sources mirrored (line numbers of /repo at the time of writing):
-     hermes/input.go:304-331   irrigation reader   (ANZBREG, ZTBR/BREG/BRKZ)
+     hermes/input.go:304-331   irrigation reader   (ANZBREG, ZTBR/BREG/BRKZ), :591-604 pre-start compaction
      hermes/input.go:643-674   tillage reader      (NRTIL, EINTE[1..]/EINT/TILART) + same-day shift loop
      hermes/input.go:676-710   fertiliser reader   (NDu, ZTDG/DGMG/DGART, slot 0 = residues of the
                                                     initial crop dated BEGINN) + shift loop + dueng
@@ -63,16 +63,26 @@ Section Reader.
     | Blank :: r => if outer then s else rd_scan B true r s
     end.
 
-  (* same-day shift loop (input.go:669-673 tillage: "for i := 1; i <= NRTIL; i++ { if EINTE[i+1] ==
-     EINTE[i] { EINTE[i+1]++ } }", input.go:701-706 fertiliser: "for i := 1; i <= NDu; i++ { index
-     := i-1; if ZTDG[index+1] == ZTDG[index] { ZTDG[index+1]++ } }"): in slot numbering both run
-     k = 0 .. count-1 and compare slot k+1 with slot k — one pass, left to right *)
+  (* same-day shift loop, as repaired by /repo 0cb3a63 (input.go: tillage "for i := 2; i <= NRTIL; i++ { if
+     EINTE[i] <= EINTE[i-1] { EINTE[i] = EINTE[i-1]+1 } }", fertiliser "for i := 1; i < NDu; i++ { if ZTDG[i] <=
+     ZTDG[i-1] { ZTDG[i] = ZTDG[i-1]+1 } }"): in slot numbering both run over the valid slots 1 .. count-1 and
+     compare slot k+1 with slot k (k = 0 .. count-2) — one pass, left to right; the slot after the last valid
+     one is not touched *)
   Fixpoint shift_arr (k : Z) (cnt : nat) (a : Z -> Z) : Z -> Z :=
     match cnt with
     | O => a
-    | S c => shift_arr (k + 1) c (if a (k + 1) =? a k then upd a (k + 1) (a (k + 1) + 1) else a)
+    | S c => shift_arr (k + 1) c (if a (k + 1) <=? a k then upd a (k + 1) (a k + 1) else a)
     end.
-  Definition shift_all (n : Z) (a : Z -> Z) : Z -> Z := shift_arr 0 (Z.to_nat n) a.
+  Definition shift_all (n : Z) (a : Z -> Z) : Z -> Z := shift_arr 0 (Z.to_nat (n - 1)) a.
+
+  (* compaction of the irrigation arrays once BEGINN is known (/repo 1398842, input.go:591-604):
+       kept := 0; for i := 0; i < ANZBREG; i++ { if ZTBR[i] >= BEGINN { arrays[kept] = arrays[i]; kept++ } } *)
+  Fixpoint compact (B : Z) (i : Z) (cnt : nat) (kept : Z) (d : Z -> Z) (p : Z -> P) : Z * (Z -> Z) * (Z -> P) :=
+    match cnt with
+    | O => (kept, d, p)
+    | S c => if B <=? d i then compact B (i + 1) c (kept + 1) (upd d kept (d i)) (upd p kept (p i))
+             else compact B (i + 1) c kept d p
+    end.
 End Reader.
 Arguments line : clear implicits.
 Arguments rd : clear implicits.
@@ -87,19 +97,21 @@ Section Readers.
     let s := rd_scan B true ls {| rd_n := 1; rd_date := upd arr0 0 B; rd_pay := upd pay0 0 p0 |} in
     {| rd_n := rd_n s; rd_date := shift_all (rd_n s) (rd_date s); rd_pay := rd_pay s |}.
 
-  (* tillage: NRTIL := 0 *)
+  (* tillage: NRTIL := 0; after the shift loop EINTE[NRTIL+1] = 0 clears the slot after the last kept event
+     (/repo 8d06013); the payload arrays EINT/TILART keep what a dropped line left there *)
   Definition till_read (B : Z) (ls : list (line P)) : rd P :=
     let s := rd_scan B true ls {| rd_n := 0; rd_date := arr0; rd_pay := pay0 |} in
-    {| rd_n := rd_n s; rd_date := shift_all (rd_n s) (rd_date s); rd_pay := rd_pay s |}.
+    {| rd_n := rd_n s; rd_date := upd (shift_all (rd_n s) (rd_date s)) (rd_n s) 0; rd_pay := rd_pay s |}.
 
-  (* irrigation: ANZBREG := 0, no shift loop; afterwards slots ANZBREG..499 are zeroed (input.go:327-331).
-     NOTE: the irrigation file is read (input.go:304) before the rotation file sets g.BEGINN (input.go:590), so
-     the caller passes B = 0 for a fresh run: no irrigation line is ever dropped. *)
+  (* irrigation: ANZBREG := 0, no shift loop.  The file is read (input.go:304-331) while g.BEGINN is still 0, so
+     the reader itself drops nothing and zeroes the slots ANZBREG..499; after "g.BEGINN = g.ERNTE[0]" the slots
+     dated before BEGINN are removed by compaction (order kept), the freed tail is zeroed, ANZBREG updated *)
   Definition irr_read (B : Z) (ls : list (line P)) : rd P :=
-    let s := rd_scan B true ls {| rd_n := 0; rd_date := arr0; rd_pay := pay0 |} in
-    {| rd_n := rd_n s;
-       rd_date := fun j => if j <? rd_n s then rd_date s j else 0;
-       rd_pay := fun j => if j <? rd_n s then rd_pay s j else dflt |}.
+    let s := rd_scan 0 true ls {| rd_n := 0; rd_date := arr0; rd_pay := pay0 |} in
+    let '(kept, d, p) := compact B 0 (Z.to_nat (rd_n s)) 0 (rd_date s) (rd_pay s) in
+    {| rd_n := kept;
+       rd_date := fun j => if j <? kept then d j else 0;
+       rd_pay := fun j => if j <? kept then p j else dflt |}.
 End Readers.
 
 (* ------------------------------------------------------------------------------------------ *)
